@@ -771,9 +771,16 @@ impl Xot {
                                                 .unwrap_or(false)
                                         })
                                     });
+                                // an attribute never relies on a default declaration,
+                                // so a namespace this element only declares as the
+                                // default is not held back by attributes below
+                                let only_default = namespaces.iter().all(|(prefix, ns)| {
+                                    ns != namespace_id || prefix == self.empty_prefix()
+                                });
                                 if reachable
                                     && fullname_serializer.is_namespace_known(*namespace_id)
-                                    && deduplicate_tracker.is_safe_to_remove(*namespace_id)
+                                    && (only_default
+                                        || deduplicate_tracker.is_safe_to_remove(*namespace_id))
                                 {
                                     Some(*namespace_id)
                                 } else {
